@@ -173,6 +173,11 @@ func ruleEval(c *Ctx, mode string) *RuleResult {
 			pr = append(pr, label+": no path returns (every path panics or is cut)")
 		}
 		for _, o := range outs {
+			for _, hc := range o.path.calls {
+				if hc.node == "node self" {
+					pr = append(pr, fmt.Sprintf("%s: evaluates its own node again (%s): evaluation would not terminate", label, callsStr(o.path)))
+				}
+			}
 			if o.hypFailed() {
 				if o.isSucc() {
 					pr = append(pr, fmt.Sprintf("%s: a sub-evaluation failed on path %s but the case returns a value", label, callsStr(o.path)))
